@@ -164,6 +164,21 @@ def main_for(chk: Check, pid: str, models: bool = True):
                 chk.violation("C06.wholesale", {"optimizer": opt, "space": enc},
                               {"runs": e[0], "crashes": e[1], "most_common": top, "all": dict(e[2])})
         chk.extra["int_pairs"] = {f"{o}/{en}": f"{e[1]}/{e[0]}" for (o, en), e in sorted(pairs.items()) if e[1]}
+    # extensions of the specification beyond the listed properties (spec/AlgoRel.tla): reported, never a verdict
+    ext = collections.defaultdict(collections.Counter)
+    for rid, clause in v["bad"]:
+        if clause.startswith("X."):
+            ext[clause][byid[rid]["opt"]] += 1
+    chk.extra["extensions"] = {
+        "module": "AlgoRel.tla",
+        "clauses": {"X.cycle": "cycle counter seen by step k is k", "X.leader": "best agent seen by a step is a best member of its starting population",
+                    "X.slotwise": f"greedy-per-agent optimizers ({len(gen.GREEDY_EACH)}): no slot gets worse", "X.greywolf": "alpha/beta/gamma = three best",
+                    "X.pso": "pbest[i] = best visited by particle i", "X.bee": "trial counters below the scouting limit"},
+        "steps_judged": sum(max(0, len(r["snaps"]) - 1) for r in records),
+        "failed": {cl: dict(c) for cl, c in ext.items()},
+    }
+    for cl, c in ext.items():
+        print(f"EXTENSION-NOTE {cl} failed for {dict(c)} (refinement outside the listed properties; not a verdict)")
     # coverage
     for r in records:
         stop = "crash" if r["crash"] else ("max" if r["steps"] >= r["mc"] else "early")
